@@ -26,18 +26,8 @@ def run(ctx, rep):
         any("find_content_string" in l and "RangeTo" in l and "pos" in l for l in labs)
     rep.check(ok, "J3", "C18|J3|get_javadoc", cfg.where(fg), "get_javadoc(input, pos) must be find_content_string(&input[..pos]).map(parse_javadoc); extracted %r" % (labs,), sample={"result": labs})
     # ---- J1 dimension typing
+    dimension_rule(ctx, rep, "C18")
     f = facts.fn(FCS)
-    body = f["body"]
-    dims = dimension_analysis(body)
-    sites = 0
-    for kind, bb, what, operand_dims, span in dims["uses"]:
-        sites += 1
-        bad = [d for d in operand_dims if d == "char"]
-        rep.check(not bad, "J1", "C18|J1|%s|%s" % (FCS, what), "%s:%d (%s)" % (span["file"], span["line"], FCS),
-                  "%s uses a character count where a byte offset is needed (counter advanced by a constant per `char`): with multi-byte text the slice is cut in the wrong place or panics on a non-boundary index" % what,
-                  witness="package p; /**é*/ interface I { }" if bad else None, sample={"site": what, "operand_dimensions": operand_dims})
-    rep.floor("J1", "byte-index uses in find_content_string", sites, 3)
-    rep.analysed["counters"] = dims["counters"]
     # ---- K: the scanner as an extracted transducer, simulated against a forward reference
     import scanner
     rep.rule("K", "the loop of find_content_string is extracted as a finite transducer (7 states x 8 character classes, by abstract interpretation of one loop iteration per configuration); the extracted table - not the code - is simulated "
@@ -103,6 +93,24 @@ def run(ctx, rep):
     rep.assumptions += ["TB-1 rustc MIR", "TB-2 @L of the first symbol is the start of the construct's first token"]
     rep.not_decided += ["the backward scanner on prefixes outside the simulated family (rule K is exhaustive only within the bounded structured family; arbitrary garbage between comment and construct is not covered)",
                         "the normalisation of parse_javadoc outside the bounded family of rule N (arbitrary Unicode text, words containing @ * /)"]
+
+
+def dimension_rule(ctx, rep, prop):
+    """J1 (shared with C02): byte / char dimension typing of the doc-comment scanner"""
+    facts = ctx.mir
+    f = facts.fn(FCS)
+    body = f["body"]
+    dims = dimension_analysis(body)
+    sites = 0
+    for kind, bb, what, operand_dims, span in dims["uses"]:
+        sites += 1
+        # positive typing: the operand must be derived from byte quantities only (and from at least one)
+        bad = [d for d in operand_dims if d not in ("byte", "const")] or ([] if "byte" in operand_dims else ["no byte-typed source"])
+        rep.check(not bad, "J1", "%s|J1|%s|%s" % (prop, FCS, what), "%s:%d (%s)" % (span["file"], span["line"], FCS),
+                  "%s uses a value that is not provably a byte offset (a counter advanced by a constant per `char`, an enumeration index, or a value of unknown origin): with multi-byte text the slice is cut in the wrong place or panics on a non-boundary index" % what,
+                  witness="package p; /**é*/ interface I { }" if bad else None, sample={"site": what, "operand_dimensions": operand_dims})
+    rep.floor("J1", "byte-index uses in find_content_string", sites, 3)
+    rep.analysed["counters"] = dims["counters"]
 
 
 def dimension_analysis(body):
@@ -188,7 +196,7 @@ def dimension_analysis(body):
                 a, b2 = s["rv"]["a"], s["rv"]["b"]
                 if a["k"] in ("copy", "move") and calls_dest.get(a["place"]["l"], "").endswith("str::<impl str>::len") and b2["k"] != "const":
                     nsub += 1
-                    uses.append(("sub", b["i"], "`input.len() - %s` (#%d)" % (names.get(b2["place"]["l"], "<offset>"), nsub), sorted(op_tags(b2) - {"const"}) or ["const"], s["span"]))
+                    uses.append(("sub", b["i"], "`input.len() - %s` (#%d)" % (names.get(b2["place"]["l"], "<offset>"), nsub), sorted(op_tags(b2)) or ["unknown"], s["span"]))
         t = b["term"]
         if t["k"] == "call":
             nm = calls_dest.get(t["dest"]["l"], "")
@@ -196,6 +204,6 @@ def dimension_analysis(body):
             nm = (ci.get("resolved") or ci["def"]) if ci else ""
             if "Index" in nm and nm.endswith("::index") and len(t["args"]) == 2 and t["args"][1]["k"] in ("move", "copy"):
                 rl = t["args"][1]["place"]["l"]
-                tg = sorted(set(tags.get(rl, set())) - {"const"})
-                uses.append(("index", b["i"], "str slice `&input[start..end]`", tg or ["const"], t["span"]))
+                tg = sorted(set(tags.get(rl, set())))
+                uses.append(("index", b["i"], "str slice `&input[start..end]`", tg or ["unknown"], t["span"]))
     return {"uses": uses, "counters": dict((names.get(l, "_%d" % l), v) for l, v in counters.items())}
